@@ -79,7 +79,8 @@ register('C13', 'fault_enumeration',
          'DESIGN.md 3 C13')
 register('C18', 'exploration',
          "2-4 real threads, serialised by a seeded baton scheduler that pre-empts at every function call inside "
-         "xmlschema/elementpath and at every (replaced) library lock operation, run programs of 1-3 operations on one "
+         "xmlschema/elementpath and at every (replaced) library lock operation (in a share of the runs also at every LINE of the "
+         "listed shared-state functions, or of one whole source file drawn per run), run programs of 1-3 operations on one "
          "shared schema: built before sharing, racing build (also of a use_meta=False schema, whose build registers the "
          "meta-schema documents), shared lazy resource; policies: uniform switching, PCT, "
          "targeted, run-to-completion. Every result must equal the pristine sequential reference, the racing build must "
